@@ -526,3 +526,58 @@ def check_C09(ctx):
     gp, nn, ne = codec_graph(ctx, "enc", "rs")
     replay(ctx, gp, "edges", acts=["reset", "encode", "iter"], engines=["default"])
     code_family(ctx, "c09", what="default-rate vs dedicated round")
+
+
+# ======================================================================
+# C15 primitives and tables, C03 engines bit-identical
+
+def prim_trace(ctx, fams, parts=4, what="primitive / table event", engines=None):
+    trace = ctx.path("prims_%s.ndjson" % fams.replace(",", "_"))
+    args = ["prims", "--family", fams, "--out", trace, "--seed", ctx.seed, "--tier", ctx.tier]
+    if engines:
+        args += ["--engines", ",".join(engines)]
+    rc, info, out = harness(args)
+    ctx.evaluations += info["events"]
+    r = validate_star(ctx, "Trace_Prim", "Trace_Prim.cfg", trace, parts=parts, what=what)
+    ctx.distinct += r["events"]
+    sample_events(ctx, r["lines"], n=2, maxlen=300)
+    return r
+
+
+def check_C15(ctx):
+    ctx.rule = ("(1) MC_Field: field axioms, table contracts and linear shortcuts on small fields; (2) ALL entries of the crate's Exp, Log, Skew and LogWalsh tables "
+                "and sampled multipliers of Mul16/Mul128 validated by TLC against GF.tla/LCH.tla built from the field polynomial and Cantor basis; (3) mul on probe "
+                "blocks covering all 64 nibble patterns for sampled multipliers per engine; (4) fft/ifft for sizes 1..32, every truncated size, skew offsets incl. the "
+                "last legal one, against the polynomial-evaluation contract FFTSpec; (5) eval_poly on mark sets against the locator definition at sampled points for "
+                "several truncated sizes; thorough: all 2^32 (symbol, log_m) pairs per engine against the certified tables. distinct = recorded events")
+    ctx.assumptions = ["TLC arithmetic and CommunityModules Java overrides are trusted",
+                       "WhatLin = What and SkewLin = SkewDef are model-checked exhaustively on small fields and re-checked on a spread of entries at 16 bits",
+                       "the thorough 2^32 loop runs in the harness against Exp/Log tables that the same run validates entry by entry"]
+    if ctx.replay:
+        return validate_star(ctx, "Trace_Prim", "Trace_Prim.cfg", ctx.replay, parts=1)
+    for b in ([2, 4] if not ctx.thorough else [2, 3, 4, 5, 6, 8]):
+        model_must_hold(ctx, "MC_Field", "MC_Field_%d.cfg" % b)
+    prim_trace(ctx, "tables,mul,xf,evalpoly", parts=6 if not ctx.thorough else 10)
+    if ctx.thorough:
+        rc, info, out = harness(["prims", "--family", "mulx", "--out", ctx.path("x"), "--seed", ctx.seed], timeout=7200)
+        ctx.extra["mul_pairs_exhaustive"] = info["pairs"]
+        ctx.evaluations += info["pairs"]
+        for b in info["bad"]:
+            p = save_replay(ctx.prop, "violation-mulx.txt", b)
+            ctx.violation("mul differs from GF!MulLog on the certified tables: " + b, p, {"source": "mulx"})
+
+
+def check_C03(ctx):
+    ctx.rule = ("(1) every public primitive (fft, ifft, mul, eval_poly) executed by EVERY engine (Naive, NoSimd, Ssse3, Avx2, DefaultEngine, Neon source on emulated "
+                "intrinsics) from identical input over a parameter grid (sizes 1..64 and large, truncated sizes, positions, skew offsets incl. the last legal one, "
+                "shard lengths 1..3 blocks): Trace_Prim requires bit-identical outputs on the region the contract determines and untouched shards outside the range; "
+                "small transforms also against FFTSpec; (2) the same encode and decode rounds on every engine: identical recovery bytes (alleq), closed form, originals. "
+                "distinct = recorded cases")
+    ctx.assumptions = ["outputs a primitive's contract leaves open are not compared (fft beyond truncated_size; ifft only with zero input beyond truncated_size)",
+                       "Neon semantics = the documented Arm semantics of vld1q_u8, vst1q_u8, veorq_u8, vandq_u8, vdupq_n_u8, vshrq_n_u8, vqtbl1q_u8 (harness/src/neon_emu.rs)"]
+    if ctx.replay:
+        t = open(ctx.replay).read(300)
+        mod = "Trace_Code" if ('"ev":"enc"' in t or '"ev":"dec"' in t or '"ev":"alleq"' in t) else "Trace_Prim"
+        return validate_star(ctx, mod, mod + ".cfg", ctx.replay, parts=1)
+    prim_trace(ctx, "xcase,xf", parts=4 if not ctx.thorough else 8, what="cross-engine primitive case")
+    code_family(ctx, "c03", what="round on every engine")
